@@ -201,27 +201,16 @@ def _r2(chk, repo, model):
 
 def _r3(chk, repo, model):
     gfn = repo.method(model, "gradient")[1]
-    txt = _norm(gfn)
-    problems = []
-    need = {
-        "wrt -> parameters for the geometry's gradient": "wrt_par=self._2par(wrt,geometry=self.domain_geometry,is_par=is_wrt_par,to_CUQIarray=False)",
-        "wrt -> function values for the raw operator": "wrt=self._2fun(wrt,self.domain_geometry,is_par=is_wrt_par)",
-        "direction -> function values with the range geometry": "direction=self._2fun(direction,self.range_geometry,is_par=is_direction_par)",
-        "raw operator applied to (direction, wrt)": "grad=self._gradient_func(direction,wrt)",
-        "result -> parameters of the domain geometry, wrapped like the direction": "grad=self._2par(grad,self.domain_geometry,to_CUQIarray=is_direction_CUQIarray,is_par=grad_is_par)",
-    }
-    for what, pat in need.items():
-        if pat not in txt:
-            problems.append(f"missing: {what}")
-    g = CFG(gfn)
-    order = ["wrt_par=self._2par(", "wrt=self._2fun(wrt", "grad=self._gradient_func("]
-    nodes = []
-    for pat in order:
-        ns = [n for n in g.nodes if n.ast is not None and n.kind == "stmt" and _norm(n.ast).startswith(pat)]
-        nodes.append(ns[0] if ns else None)
-    if all(nodes) and not (g.dominates(nodes[0], nodes[1]) and g.dominates(nodes[1], nodes[2])):
-        problems.append("wrt must be converted to parameters before it is overwritten by its function values, and both before the raw gradient")
-    chk.add("C12-R3", f"{model.qual}.gradient/conversions", not problems, site(repo, gfn), "wrt/direction conversions as documented", "; ".join(problems), gfn)
+    # decision table over "the domain geometry has a gradient": the returned expression, with locals replaced by their bindings on the path, states
+    # every conversion (wrt -> parameters from the ORIGINAL wrt, wrt/direction -> function values, result -> parameters wrapped like the direction)
+    from .common import model_gradient_table, model_gradient_expected
+    tb, kc = model_gradient_table(repo, model, gfn)
+    if tb is None:
+        chk.unknown("C12-R3", f"{model.qual}.gradient/conversions", site(repo, gfn), f"not decidable: {kc}", gfn)
+    else:
+        exp = model_gradient_expected(repo, model, gfn, kc)
+        problems = [f"[domain geometry has a gradient={k}] returns `{tb[k]}`, expected `{exp[k]}`" for k in (True, False) if tb[k] != exp[k]]
+        chk.add("C12-R3", f"{model.qual}.gradient/conversions", not problems, site(repo, gfn), "wrt/direction conversions as documented", "; ".join(problems)[:900], gfn)
     init = repo.method(model, "__init__")[1]
     # the callable bound to `gradient` when only a Jacobian is given: a lambda or a nested def whose value is direction @ jacobian(wrt)
     from ..canon import _single_expr
